@@ -96,7 +96,7 @@ CLAIMED = {
        "ogg_delete_classes (+ *_clean_partial under NumberedRun); mp4_parse_clean, mp4_parse_finishes, mp4_load_clean, mp4_save_clean, mp4_delete_clean; and "
        "<fmt>_info_total for the WavPack / Monkey's Audio / OptimFROG / TrueAudio / TAK stream-info parsers (Props/C05_<Fmt>.lean). The stuck goals of these proofs "
        "were thirteen real escapes, each repaired as a fix: commit and kept as harness/corpus/c04 inputs. Remaining hypotheses are stated per theorem (v2_version in {3,4}; "
-       "APE files of at least 32 bytes; the donor-only ValueError of to_packets). Partial beyond the models. Lean 4 theorems (Props/C04.lean): the modelled decoders are TOTAL and their only failure is the format error - "
+       "APE files of any length; the donor-only ValueError of to_packets). Partial beyond the models. Lean 4 theorems (Props/C04.lean): the modelled decoders are TOTAL and their only failure is the format error - "
        "mpeg_decode_total (every 32-bit header: a decoded header or HeaderNotFound, indices always inside the generated tables), "
        "streaminfo_load_total, unsynch_decode_total, bitpadded_parse_total, flac_walk_total, ogg_parse_total (any byte string: a page and "
        "the rest, end of stream, or the Ogg error; lacing sums stay inside the data), readBits_lt/readFields_bounds (bit reader never reads "
